@@ -8,6 +8,7 @@ import (
 	"go/token"
 	"os"
 	"sort"
+	"strings"
 	"sync"
 	"time"
 
@@ -303,6 +304,9 @@ func appendUnique(l []string, s string) []string {
 func tagKey(m map[string]string) string {
 	var ks []string
 	for k := range m {
+		if strings.HasPrefix(k, "_") {
+			continue // informational tag: not part of the violation's class
+		}
 		ks = append(ks, k)
 	}
 	sort.Strings(ks)
